@@ -152,6 +152,9 @@ type anaCase struct {
 	Order       []orderItem  `json:"order,omitempty"`
 	Frame       ref.AnaFrame `json:"frame"`
 	CPU         int          `json:"cpu"`
+	// Strict: the session runs with @@STRICT_EQUAL (direct check only; the key cells are then canonical:
+	// equal cells are identical cells, so the flag must not change any result)
+	Strict bool `json:"strict,omitempty"`
 }
 
 const udfDecl = `
@@ -444,7 +447,9 @@ func genCase(t *rapid.T) anaCase {
 		mode = "medium"
 	}
 	large := mode == "large"
-	c := genCall(t, large, genRowsMode(t, mode, false), allFns())
+	strict := chance(t, "strictEqual", 10)
+	c := genCall(t, large, genRowsMode(t, mode, strict), allFns())
+	c.Strict = strict
 	c.CPU = genCPU(t, large)
 	if mode == "medium" {
 		c.CPU = pick(t, "cpuMedium", []int{2, 3, 4, 4, 8})
@@ -785,6 +790,14 @@ func inDomain(c anaCase) bool {
 	if !argInDomain(c, false) {
 		return false
 	}
+	if c.Strict {
+		// canonical key cells only: integers and lowercase words (no integer spelled as text, no float)
+		for _, r := range c.Rows {
+			if r[cO1].K != "I" && r[cO1].K != "N" {
+				return false
+			}
+		}
+	}
 	for _, p := range c.Partition {
 		if colIdx(p) >= len(cols) {
 			return false
@@ -983,6 +996,10 @@ func checkCase(c anaCase) (fw.Outcome, *fw.Violation) {
 	if c.Distinct {
 		o.Classes = append(o.Classes, "distinct")
 	}
+	if c.Strict {
+		o.Classes = append(o.Classes, "strict_equal")
+		fw.AddExtra("analytic/strict_equal", 1)
+	}
 
 	s, err := run.NewSess(run.Opt{Dir: fw.WorkDir(), CPU: c.CPU})
 	if err != nil {
@@ -990,6 +1007,9 @@ func checkCase(c anaCase) (fw.Outcome, *fw.Violation) {
 	}
 	defer s.Close()
 	var b strings.Builder
+	if c.Strict {
+		b.WriteString("SET @@STRICT_EQUAL TO TRUE;\n")
+	}
 	b.WriteString("DECLARE t VIEW (" + strings.Join(cols, ", ") + ");\n")
 	if n > 0 {
 		b.WriteString("INSERT INTO t VALUES ")
@@ -1064,13 +1084,16 @@ func checkCase(c anaCase) (fw.Outcome, *fw.Violation) {
 	}
 	res := analyticCheckIn(c, in, got)
 	if res.Sig != "" {
+		if c.Strict {
+			return o, fw.V(res.Sig+":strict_equal", "SET @@STRICT_EQUAL TO TRUE; %s\n  %s\n  rows(id,p1,p2,o1,o2,v,s)=%v", sql, res.Msg, clipRows(c.Rows))
+		}
 		return o, fw.V(res.Sig, "%s\n  %s\n  rows(id,p1,p2,o1,o2,v,s)=%v", sql, res.Msg, clipRows(c.Rows))
 	}
 	if res.Reading != "" {
 		o.Classes = append(o.Classes, "reading:"+res.Reading)
 	}
 	if bigParts >= 2 && (ties || c.Frame.Bounded()) {
-		o.Fingerprint = fmt.Sprintf("%s|pk%d|ok%d|id%v|%s|ties%v|ign%v|dist%v", c.Fn, len(c.Partition), nUser, in.UniqueOrder, c.Frame.Shape(), ties, c.IgnoreNulls, c.Distinct)
+		o.Fingerprint = fmt.Sprintf("%s|pk%d|ok%d|id%v|%s|ties%v|ign%v|dist%v|strict%v", c.Fn, len(c.Partition), nUser, in.UniqueOrder, c.Frame.Shape(), ties, c.IgnoreNulls, c.Distinct, c.Strict)
 	}
 	return o, nil
 }
@@ -1086,8 +1109,9 @@ func TestC17Analytic(t *testing.T) {
 	fw.Run(t, fw.Spec[anaCase]{
 		ID: "C17", Name: "analytic", Quick: 24000, Thorough: 480000,
 		Gen: genCase, Check: checkCase,
-		Rule: "temporary table (unique id, partition columns with few values + NULL + single-row partitions, order columns with ties and NULLs, integer and string value columns with NULLs; 15% of tables have 160-230 rows with 2-4 partition values and run with --cpu 2-4; 12% have 16-120 rows with up to 42 partition values and run with --cpu 2-8, so that the partitions are divided among workers that each handle several of them although per-record work is not split below 160 rows) x one analytic call (ROW_NUMBER, RANK, DENSE_RANK, CUME_DIST, PERCENT_RANK, NTILE, FIRST/LAST/NTH_VALUE [IGNORE NULLS], LAG/LEAD [offset, default, IGNORE NULLS], COUNT/SUM/AVG/MIN/MAX/MEDIAN/STDEV/STDEVP/VAR/VARP [DISTINCT], LISTAGG / JSON_AGG [DISTINCT], two user-defined aggregates) OVER (PARTITION BY 0-2, ORDER BY 0-2 [+id], ROWS frames of the documented grammar); the result column is compared by id with a reference evaluator written from the manual, the other columns and the row count must be unchanged; non-trivial = at least two partitions with two or more rows and (ties under the user ORDER BY items or a bounded frame); distinct by (function, #partition items, #order items, id key, frame shape, ties, IGNORE NULLS, DISTINCT)",
+		Rule: "temporary table (unique id, partition columns with few values + NULL + single-row partitions, order columns with ties and NULLs, integer and string value columns with NULLs; 15% of tables have 160-230 rows with 2-4 partition values and run with --cpu 2-4; 12% have 16-120 rows with up to 42 partition values and run with --cpu 2-8, so that the partitions are divided among workers that each handle several of them although per-record work is not split below 160 rows; 10% of the sessions run with SET @@STRICT_EQUAL TO TRUE over tables whose key cells are canonical - small integers and lowercase words - so that the flag must not change any result) x one analytic call (ROW_NUMBER, RANK, DENSE_RANK, CUME_DIST, PERCENT_RANK, NTILE, FIRST/LAST/NTH_VALUE [IGNORE NULLS], LAG/LEAD [offset, default, IGNORE NULLS], COUNT/SUM/AVG/MIN/MAX/MEDIAN/STDEV/STDEVP/VAR/VARP [DISTINCT], LISTAGG / JSON_AGG [DISTINCT], two user-defined aggregates) OVER (PARTITION BY 0-2, ORDER BY 0-2 [+id], ROWS frames of the documented grammar); the result column is compared by id with a reference evaluator written from the manual, the other columns and the row count must be unchanged; non-trivial = at least two partitions with two or more rows and (ties under the user ORDER BY items or a bounded frame); distinct by (function, #partition items, #order items, id key, frame shape, ties, IGNORE NULLS, DISTINCT, strict-equal)",
 		Assumptions: []string{
+			"@@STRICT_EQUAL (manual: compare strictly that two values are equal for DISTINCT, GROUP BY and ORDER BY) is only set where every pair of equal key or argument cells is a pair of identical cells; what the flag does to cells that are equal but not identical (1 and '1', 'a' and 'A') is not part of this check",
 			"partition and order key values are small integers, lowercase non-numeric strings and NULL; an order column holds one type",
 			"order-dependent functions (FIRST/LAST/NTH_VALUE, LAG, LEAD, aggregates with ORDER BY, LISTAGG, JSON_AGG, the order-dependent user aggregate) get id as last ORDER BY item; without any ORDER BY they are only checked order-independently (membership / multiset)",
 			"open outcomes accepted: PERCENT_RANK of a one-row partition (0 or 1, consistently); FIRST/LAST/NTH_VALUE with ORDER BY but no windowing clause (whole partition or up to the current row); LAG/LEAD IGNORE NULLS (offset-th non-null row, or the row at the offset else the nearest non-null beyond it)",
